@@ -173,6 +173,23 @@ func run(repo, out string, rep *report) error {
 					if nm.Name == "values" {
 						hasValues = true
 					}
+					if nm.Name == "externalLookup" {
+						// a plain field of the scope that lookups read and SetExternalLookup writes: probed like a table
+						// (read-shared: only a write by another task makes an unlocked access a violation). Not probed
+						// when it is kept in a synchronisation type of its own (atomic.Value, atomic.Pointer ...).
+						plain := true
+						ast.Inspect(fld.Type, func(n ast.Node) bool {
+							if se, ok := n.(*ast.SelectorExpr); ok {
+								if id, ok := se.X.(*ast.Ident); ok && (id.Name == "atomic" || id.Name == "sync") {
+									plain = false
+								}
+							}
+							return true
+						})
+						if plain {
+							guardedFields[nm.Name] = true
+						}
+					}
 					if nm.Name == "values" || nm.Name == "types" {
 						if _, isMap := fld.Type.(*ast.MapType); !isMap {
 							// the table is no longer a plain map guarded by the mutex (sync.Map, atomic copy-on-write...):
@@ -242,6 +259,9 @@ func run(repo, out string, rep *report) error {
 }
 
 var skipTables map[string]bool
+
+// guardedFields: non-table fields of the scope type that get lockset probes (see the struct scan in run)
+var guardedFields = map[string]bool{}
 
 func isSyncMutex(e ast.Expr) bool {
 	se, ok := e.(*ast.SelectorExpr)
@@ -496,7 +516,7 @@ func (rw *rewriter) walkList(list []ast.Stmt) {
 // tableSel reports whether e is X.values / X.types and returns X's text.
 func (rw *rewriter) tableSel(e ast.Expr) (string, bool, bool) {
 	se, ok := e.(*ast.SelectorExpr)
-	if !ok || (se.Sel.Name != "values" && se.Sel.Name != "types") || skipTables[se.Sel.Name] {
+	if !ok || (se.Sel.Name != "values" && se.Sel.Name != "types" && !guardedFields[se.Sel.Name]) || skipTables[se.Sel.Name] {
 		return "", false, false
 	}
 	x := rw.text(se.X)
